@@ -29,7 +29,8 @@
 
   Totalisation: deleting an absent cell and popping an absent/empty stack are no-ops in the
   model (Python would raise).  `PgProofs/Scope.lean` shows that in `exec` the cell is present at
-  that point (`exit_cell_present_*`), so no theorem is true because of the totalisation.
+  that point (`exit_defined`, for arguments in the documented domain), so no theorem is true
+  because of the totalisation.
 -/
 namespace Pg.C17
 
